@@ -8,7 +8,8 @@ Inductive bkind :=
   | BNegIntConst | BNonNegIntConst                    (* integer compile-time constants *)
   | BRuntimeSignedInt | BRuntimeUnsignedInt           (* C integer variables: may be negative | known >= 0 *)
   | BIntegralFloatConst | BFloatConst | BRuntimeFloat. (* 2.0 / -2.0 | 2.5 | C floating point variable *)
-Inductive rtype := RInt | RFloat | RSoftComplex | ROther.
+Inductive rtype := RInt | RFloat | RSoftComplex | ROther
+  | RComplex | RObj.                                  (* C complex | Python object (extended operand classes below) *)
 
 Definition a_is_int (a : atype) : bool := match a with AFloat => false | _ => true end.
 Definition b_is_int (b : bkind) : bool :=
@@ -40,3 +41,175 @@ Definition doc_allows (cpow : bool) (a : atype) (b : bkind) (r : rtype) : bool :
 
 Definition row_ok (row : bool * atype * bkind * rtype) : bool :=
   let '(cpow, a, b, r) := row in doc_allows cpow a b r.
+
+
+(* ------------------------------------------------------------------------------------------
+   Extended operand classes and the DESTINATION rule (ExprNodes.PowNode.compute_c_result_type +
+   PowNode.coerce_to).  The cpow directive has three states: the user guide documents
+   default=False; the compiler keeps "unset" apart for exactly one purpose, written down in the
+   comment of PowNode.coerce_to: a power whose type depended on cpow being off, coerced DIRECTLY to
+   a C integer / C floating point destination, is re-typed with the cpow=True rule (with a
+   warning).  An explicit True/False is never re-typed. *)
+Inductive cpow3 := CUnset | CTrue | CFalse.
+Inductive opnd := OC (a : atype) | OComplex | OObj               (* C real | C complex | Python object *)
+  | OPosFloat                  (* C floating point known >= 0 at compile time (a constant base such as 2.0) *)
+  | OPosIntConst.              (* non-negative integer constant base (3 ** b): typed like an unsigned C integer, but the
+                                  constant node is re-typed to double with the power, so the C-int fallback test fails *)
+Inductive ekind := EC (b : bkind) | EComplexConst | ERuntimeComplex | EObj.
+(* where the value of a ** b goes.  DNone: nowhere typed (return from a def function,
+   cython.typeof).  DCInt/DCFloat/DCComplex/DPyObj: coerced by assignment to a typed variable,
+   return from a typed cdef function, or argument of a C function.  DCast*: explicit <T> cast.
+   DArith*: operand of C arithmetic with a value of that type. *)
+Inductive dest := DNone | DCInt | DCFloat | DCComplex | DPyObj | DCastInt | DCastFloat | DArithInt | DArithFloat.
+
+Definition eff_cpow (c : cpow3) : bool := match c with CTrue => true | _ => false end.
+
+Definition o_is_c_real (a : opnd) : bool := match a with OC _ | OPosFloat | OPosIntConst => true | _ => false end.
+Definition e_is_c_real (b : ekind) : bool := match b with EC _ => true | _ => false end.
+Definition o_is_c_int (a : opnd) : bool := match a with OC AInt | OC AUInt => true | _ => false end.
+Definition e_is_c_int (b : ekind) : bool := match b with EC k => b_is_int k | _ => false end.
+(* exponent is a run-time C integer (not a constant) *)
+Definition e_is_runtime_int (b : ekind) : bool :=
+  match b with EC BRuntimeSignedInt | EC BRuntimeUnsignedInt => true | _ => false end.
+
+(* widest numeric class of the two operands (NumBinopNode.compute_c_result_type) *)
+Definition base_type (a : opnd) (b : ekind) : rtype :=
+  match a, b with
+  | OObj, _ | _, EObj => RObj
+  | OComplex, _ | _, EComplexConst | _, ERuntimeComplex => RComplex
+  | OC a', EC b' => if a_is_int a' && b_is_int b' then RInt else RFloat
+  | OPosFloat, EC _ => RFloat
+  | OPosIntConst, EC b' => if b_is_int b' then RInt else RFloat
+  end.
+
+Definition widen (r : rtype) : rtype := match r with RInt => RFloat | _ => r end.
+
+(* the deterministic documented result type: the table, with "either a C real or complex number"
+   resolved to: a C real where the result is provably real (base known >= 0 or exponent
+   integral), the soft complex type otherwise *)
+Definition pow_type (cpow : bool) (a : opnd) (b : ekind) : rtype :=
+  match base_type a b with
+  | RObj => RObj
+  | RComplex => RComplex
+  | base =>
+      match b with
+      | EC BNegIntConst => widen base
+      | EC BRuntimeSignedInt => if cpow then base else widen base
+      | EC BFloatConst | EC BRuntimeFloat =>
+          if cpow then base else match a with OC AUInt | OPosFloat | OPosIntConst => base | _ => RSoftComplex end
+      | _ => base
+      end
+  end.
+
+(* PowNode.type_was_inferred: the type depended on cpow being off *)
+Definition type_inferred (a : opnd) (b : ekind) : bool :=
+  match base_type a b with
+  | RObj => false
+  | _ => match b with
+         | EC BRuntimeSignedInt => true
+         | EC BFloatConst | EC BRuntimeFloat => match a with OC AUInt | OPosFloat | OPosIntConst => false | OC _ => true | _ => false end
+         | _ => false
+         end
+  end.
+
+Definition is_direct_c_real (d : dest) : bool := match d with DCInt | DCFloat => true | _ => false end.
+
+(* does the unset-directive fallback fire?  only for a direct coercion to a C int / C float, an
+   inferred type, and operands that are plain C reals (soft complex case) resp. C integers
+   (C int destination) *)
+Definition fallback_fires (c : cpow3) (a : opnd) (b : ekind) (d : dest) : bool :=
+  match c with
+  | CUnset =>
+      type_inferred a b && is_direct_c_real d &&
+      match pow_type false a b, d with
+      | RSoftComplex, _ => o_is_c_real a && e_is_c_real b
+      | RFloat, DCInt => o_is_c_int a && e_is_c_int b
+      | _, _ => false
+      end
+  | _ => false
+  end.
+
+(* standard C assignment rule: is a value of type r accepted for destination d at compile time *)
+Definition assignable (r : rtype) (d : dest) : bool :=
+  match d, r with
+  | DCInt, RInt | DCInt, RObj => true
+  | DCInt, _ => false
+  | DCFloat, RComplex => false
+  | DCFloat, ROther => false
+  | _, ROther => false
+  | _, _ => true
+  end.
+
+Record outcome := mk_outcome { o_type : rtype; o_rejected : bool; o_warned : bool }.
+
+(* the whole rule: type of the power node after analysis, compile error or not, warning or not *)
+Definition pow_coerced (c : cpow3) (a : opnd) (b : ekind) (d : dest) : outcome :=
+  let fb := fallback_fires c a b d in
+  let r := pow_type (eff_cpow c || fb) a b in
+  mk_outcome r (negb (assignable r d)) fb.
+
+(* the same rule written from the documentation side: an explicit setting selects the column of
+   the table and the destination has no influence; only `unset` consults the destination *)
+Definition doc_coerced (c : cpow3) (a : opnd) (b : ekind) (d : dest) : outcome :=
+  match c with
+  | CTrue => let r := pow_type true a b in mk_outcome r (negb (assignable r d)) false
+  | CFalse => let r := pow_type false a b in mk_outcome r (negb (assignable r d)) false
+  | CUnset =>
+      let r0 := pow_type false a b in
+      let direct := match d with DCInt | DCFloat => true | _ => false end in
+      let c_reals := match a, b with OC _, EC _ | OPosFloat, EC _ | OPosIntConst, EC _ => true | _, _ => false end in
+      let c_ints := match a, b with OC AInt, EC k | OC AUInt, EC k => b_is_int k | _, _ => false end in
+      let differs := negb (match r0, pow_type true a b with
+                           | RInt, RInt | RFloat, RFloat | RComplex, RComplex | RObj, RObj => true | _, _ => false end) in
+      let fb := direct && differs && c_reals &&
+                match r0, d with RSoftComplex, _ => true | RFloat, DCInt => c_ints | _, _ => false end in
+      let r := if fb then pow_type true a b else r0 in
+      mk_outcome r (negb (assignable r d)) fb
+  end.
+
+(* run-time delivery of a value of static type r to destination d.  `real` = the mathematical
+   (CPython) result is a real number. *)
+Inductive delivery :=
+  | VInt          (* C integer arithmetic: the IntPow helper (0 for negative exponents) *)
+  | VFloat        (* C pow(): NaN where the Python result would be complex *)
+  | VPyReal       (* Python value, real *)
+  | VPyComplex    (* Python value, complex *)
+  | VTypeError    (* (soft) complex value with non-zero imaginary part cannot become a C real *)
+  | VNoValue.     (* rejected at compile time / not a coercion this model describes *)
+
+Definition deliver (r : rtype) (d : dest) (real : bool) : delivery :=
+  if negb (assignable r d) then VNoValue else
+  match r with
+  | RInt => VInt
+  | RFloat => VFloat
+  | RSoftComplex =>
+      match d with
+      | DCFloat => if real then VPyReal else VTypeError
+      | DNone | DPyObj | DArithFloat | DArithInt => if real then VPyReal else VPyComplex
+      | DCComplex => VPyComplex
+      | _ => VNoValue
+      end
+  | RComplex => match d with DCastInt | DCastFloat => VNoValue | _ => VPyComplex end
+  | RObj => (* Python value, then the ordinary object -> C conversion *)
+      match d with
+      | DCInt | DCFloat => if real then VPyReal else VTypeError
+      | DCComplex => VPyComplex
+      | _ => if real then VPyReal else VPyComplex
+      end
+  | ROther => VNoValue
+  end.
+
+Definition rtype_eqb (x y : rtype) : bool :=
+  match x, y with
+  | RInt, RInt | RFloat, RFloat | RSoftComplex, RSoftComplex | ROther, ROther | RComplex, RComplex | RObj, RObj => true
+  | _, _ => false
+  end.
+Definition outcome_eqb (x y : outcome) : bool :=
+  rtype_eqb (o_type x) (o_type y) && Bool.eqb (o_rejected x) (o_rejected y) && Bool.eqb (o_warned x) (o_warned y).
+
+(* a row dumped from the running compiler: (cpow, a, b, destination, observed type, rejected, warned) *)
+Definition crow := (cpow3 * opnd * ekind * dest * (rtype * bool * bool))%type.
+Definition crow_ok (row : crow) : bool :=
+  let '(c, a, b, d, (r, rej, w)) := row in outcome_eqb (doc_coerced c a b d) (mk_outcome r rej w).
+Definition crow_model_ok (row : crow) : bool :=
+  let '(c, a, b, d, (r, rej, w)) := row in outcome_eqb (pow_coerced c a b d) (mk_outcome r rej w).
